@@ -575,10 +575,11 @@ Definition parse_version_or_fail (s : string) : res version :=
   match parse s with Some v => Ok v | None => Err EParseConstraint end.
 
 Definition make_x_constraint_range (v : version) (invert is_marker : bool) : res vc :=
-  let nxt := if is_postrelease v then next_postrelease v
+  (* dev releases first (D44): next_prerelease / next_postrelease of a version that also has a dev segment only drop the segment *)
+  let nxt := if is_devrelease v then next_devrelease v
+             else if is_postrelease v then next_postrelease v
              else if is_stable v then next_stable v
-             else if is_prerelease v then next_prerelease v
-             else next_devrelease v in
+             else next_prerelease v in
   let mn := if is_marker then v else first_devrelease v in
   let mx := if is_marker then nxt else if is_devrelease nxt then nxt else first_devrelease nxt in
   let result := RR (Some mn) (Some mx) true false in
